@@ -43,7 +43,7 @@ func applyDiff(repo, patch string) (map[string][]byte, bool) {
 			file = strings.TrimPrefix(l, "+++ b/")
 			b, err := os.ReadFile(filepath.Join(repo, file))
 			if err != nil {
-				return nil, false
+				b = nil // a file added by the change
 			}
 			content = string(b)
 			continue
@@ -76,10 +76,35 @@ func applyDiff(repo, patch string) (map[string][]byte, bool) {
 			}
 		}
 		o, n := strings.Join(oldB, "\n")+"\n", strings.Join(newB, "\n")+"\n"
-		if strings.Count(content, o) != 1 {
-			return nil, false
+		if len(oldB) == 0 && content == "" {
+			content = n
+		} else {
+			// locate the old block; when it occurs more than once take the occurrence nearest to the hunk's line
+			want := hunkStart(l)
+			best, bestDist := -1, 1<<30
+			for from := 0; ; {
+				k := strings.Index(content[from:], o)
+				if k < 0 {
+					break
+				}
+				pos := from + k
+				if pos == 0 || content[pos-1] == '\n' {
+					line := strings.Count(content[:pos], "\n") + 1
+					d := line - want
+					if d < 0 {
+						d = -d
+					}
+					if d < bestDist {
+						best, bestDist = pos, d
+					}
+				}
+				from = pos + 1
+			}
+			if best < 0 {
+				return nil, false
+			}
+			content = content[:best] + n + content[best+len(o):]
 		}
-		content = strings.Replace(content, o, n, 1)
 		i = j - 1
 	}
 	flush()
@@ -178,4 +203,20 @@ func first(s []string) string {
 		return ""
 	}
 	return s[0]
+}
+
+// hunkStart parses the new-file start line of a hunk header "@@ -a,b +c,d @@".
+func hunkStart(h string) int {
+	i := strings.Index(h, "+")
+	if i < 0 {
+		return 0
+	}
+	n := 0
+	for _, ch := range h[i+1:] {
+		if ch < '0' || ch > '9' {
+			break
+		}
+		n = n*10 + int(ch-'0')
+	}
+	return n
 }
